@@ -71,6 +71,7 @@ type shardCtl struct {
 	folded int64 // last log offset folded into the model
 	model  *refDB
 	notificationsEnabled bool
+	onFold func(e *proto.LogEntry) // called for every committed entry folded into the model
 }
 
 func newShardCtl(w *World, node *SimNode) *shardCtl {
@@ -236,6 +237,15 @@ func (c *shardCtl) foldNew() (*proto.WriteResponse, []refPutOutcome, error) {
 	var last *proto.WriteResponse
 	var lastOut []refPutOutcome
 	for _, e := range ents {
+		if e.Offset > v.CommitOffset {
+			break // not committed (yet)
+		}
+		if c.onFold != nil {
+			if e.Offset != c.folded+1 {
+				return nil, nil, fmt.Errorf("leader log continues at offset %d, the model is at %d", e.Offset, c.folded)
+			}
+			c.onFold(e)
+		}
 		ws, err := decodeEntry(e)
 		if err != nil {
 			return nil, nil, err
@@ -286,6 +296,25 @@ func compareReplicaDumps(a, b kv.DB) string {
 	if err != nil {
 		return "dump failed: " + err.Error()
 	}
+	return compareDumpLists(da, db)
+}
+
+// dumpCommitOffset extracts the applied commit offset stored in a dump (-1 if none).
+func dumpCommitOffset(dump []dumpEntry) int64 {
+	for _, e := range dump {
+		if e.Key == internalPrefix+"commit-offset" {
+			se := &proto.StorageEntry{}
+			var off int64 = -1
+			if se.UnmarshalVT(e.Value) == nil {
+				fmt.Sscan(string(se.Value), &off)
+			}
+			return off
+		}
+	}
+	return -1
+}
+
+func compareDumpLists(da, db []dumpEntry) string {
 	local := func(k string) bool { return k == internalPrefix+"term" || k == internalPrefix+"term-options" }
 	notif := func(k string) bool { return len(k) > len(internalPrefix)+14 && k[:len(internalPrefix)+14] == internalPrefix+"notifications/" }
 	ma := map[string][]byte{}
